@@ -32,9 +32,9 @@ def L(*pairs):
 AB, BC, AC = ("a", "b"), ("b", "c"), ("a", "c")
 
 
-def sc(name, up, links=(), dlinks=None, loc=None, ia=None, ra=None, wn=None, conn=0, disc=0, exp=0, forget=0, fifo=True):
+def sc(name, up, links=(), dlinks=None, loc=None, ia=None, ra=None, wn=None, conn=0, disc=0, exp=0, expat=None, forget=0, fifo=True, script=()):
     return dict(name=name, up=L(*up), links=L(*links), dlinks=L(*(links if dlinks is None else dlinks)), loc=loc or {}, ia=ia or {}, ra=ra or {}, wn=wn or {}, conn=conn,
-                disc=disc, exp=exp, forget=forget, fifo=fifo)
+                disc=disc, exp=exp, expat=expat, forget=forget, fifo=fifo, script=list(script))
 
 
 # ---------------------------------------------------------------------------------------------- TLA text
@@ -60,10 +60,12 @@ def tla_fn(d, default, conv=str):
 
 def scen_tla(s):
     return ("[name |-> %s, up |-> %s, links |-> %s, dlinks |-> %s, loc |-> %s, ia |-> %s, ra |-> %s, wn |-> %s, conn |-> %d, disc |-> %d, "
-            "exp |-> %d, forget |-> %d, fifo |-> %s]") % (
+            "exp |-> %d, expat |-> %s, forget |-> %d, fifo |-> %s, script |-> <<%s>>]") % (
         tla_str(s["name"]), tla_links(s["up"]), tla_links(s["links"]), tla_links(s["dlinks"]),
         tla_fn(s["loc"], [], lambda v: tla_set(tla_str(r) for r in v)), tla_fn(s["ia"], 0), tla_fn(s["ra"], 0),
-        tla_fn(s["wn"], 0), s["conn"], s["disc"], s["exp"], s["forget"], "TRUE" if s["fifo"] else "FALSE")
+        tla_fn(s["wn"], 0), s["conn"], s["disc"], s["exp"],
+        "Agent" if s["expat"] is None else tla_set(tla_str(a) for a in s["expat"]), s["forget"], "TRUE" if s["fifo"] else "FALSE",
+        ", ".join(tla_str(x) for x in s["script"]))
 
 
 def mc_files(scens, agents, dev=(), emit=True, invs=INVS, trace=False, base="FloodInfo"):
@@ -183,9 +185,11 @@ def tlc_many(ctx, jobs, par=4, timeout=1500):
             ctx._keep_log(d, p.stdout, job["name"])
             raise vf.Infra("TLC failure (%s) on %s/%s:\n%s" % (bad or "did not finish", job["module"], job["name"],
                                                              "\n".join(p.stdout.splitlines()[-40:])))
-        ctx.log("TLC %s/%s: %d generated, %d distinct, %.1fs%s" % (
-            job["module"], job["name"], res.generated, res.distinct, res.wall,
+        ctx.log("TLC %s/%s: %d generated, %d distinct, %d edges, %.1fs%s" % (
+            job["module"], job["name"], res.generated, res.distinct, len(res.edges), res.wall,
             (" VIOLATED " + str(res.violated)) if res.violated else ""))
+        if res.violated and not job["name"].startswith("dev-"):
+            ctx._keep_log(d, p.stdout, job["name"])
         return res
 
     with ThreadPoolExecutor(max_workers=max(1, min(len(jobs), par))) as ex:
@@ -200,14 +204,12 @@ def is_init(s):
             and sum(s["ctr"].values()) == sum(len(v) for v in s["loc"].values()))
 
 
-def cover(edges, scens):
+def cover(edges):
     """path cover per scenario, with the alternative post-states of every (s, a) (map iteration order of the replays)"""
     alts = {}
     for e in edges:
         alts.setdefault((vf.canon(e["s"]), vf.canon(e["a"])), {})[vf.canon(e["t"])] = e["t"]
     paths, nnodes, nedges = R.cover(edges, is_init)
-    byname = {s["name"]: s for s in scens}
-    init_up = {}
     for p in paths:
         cur = p["init"]
         for st in p["steps"]:
@@ -223,39 +225,43 @@ def compact(a):
     return " ".join(str(a[k]) if k != "l" else "-".join(a[k]) for k in ("act", "n", "p", "l", "o", "seq", "res") if a.get(k))
 
 
-def replay(ctx, edges, scens, agents, tag):
-    if not edges:
-        raise vf.Infra("no edges emitted for %s" % tag)
-    paths, nnodes, nedges = cover(edges, scens)
-    samples = []
-    if paths:
-        p = max(paths, key=lambda p: len(p["steps"]))
-        samples.append({"relation": tag, "scenario": p["init"]["sc"], "path": [compact(s["a"]) for s in p["steps"][:16]]})
-    if SELFTEST == "corrupt-replay":
-        # binding self-test: one expected post-state is falsified (the stored node-info sequence of some agent)
-        done = False
-        for p in paths:
-            for st in p["steps"]:
-                if done:
-                    break
-                for n, row in st["t"]["info"].items():
-                    for o, v in row.items():
-                        if v > 0 and n != o and not done:
-                            st["t"] = json.loads(json.dumps(st["t"]))
-                            st["t"]["info"][n][o] = v + 1
-                            st["alts"] = []
-                            done = True
-    inp = os.path.join(ctx.work, "floodinfo_paths_%s.json" % tag)
-    vf.write_json(inp, {"agents": agents, "paths": paths})
+def replay(ctx, sets):
+    """sets: [(tag, edges, agents)] -> one go test replays the path covers of all relations; returns {tag: dict}"""
+    doc, out = [], {}
+    for tag, edges, agents in sets:
+        if not edges:
+            raise vf.Infra("no edges emitted for %s" % tag)
+        paths, nnodes, nedges = cover(edges)
+        samples = []
+        if paths:
+            p = max(paths, key=lambda p: len(p["steps"]))
+            samples.append({"relation": tag, "scenario": p["init"]["sc"], "path": [compact(s["a"]) for s in p["steps"][:16]]})
+        if SELFTEST == "corrupt-replay" and tag == "asbuilt":
+            # binding self-test: one expected post-state is falsified (the stored node-info sequence of some agent, or a
+            # sequence number in a learned route)
+            done = False
+            for p in paths:
+                for st in p["steps"]:
+                    ents = [e for v in st["t"]["tbl"].values() for e in v]
+                    if ents and not done:
+                        st["t"] = json.loads(json.dumps(st["t"]))
+                        [e for v in st["t"]["tbl"].values() for e in v][0]["seq"] += 1
+                        st["alts"] = []
+                        done = True
+        doc.append({"tag": tag, "agents": agents, "paths": paths})
+        out[tag] = {"paths": len(paths), "edges": nedges, "states": nnodes, "samples": samples, "tag": tag}
+    inp = os.path.join(ctx.work, "floodinfo_paths.json")
+    vf.write_json(inp, {"sets": doc})
     g = ctx.gotest("flood", HFILES, "^TestZZVFloodInfoReplay$", env={"ZZV_IN": inp}, timeout=1500)
-    summ = g.of("summary")
-    if not summ:
-        raise vf.Infra("replay harness produced no summary:\n" + g.out[-3000:])
-    s = summ[0]
-    if s["paths"] != len(paths):
-        raise vf.Infra("replay harness ran %d of %d paths" % (s["paths"], len(paths)))
-    return {"paths": len(paths), "edges": nedges, "states": nnodes, "steps": s["steps"], "forks": s["forks"],
-            "mismatches": g.of("mismatch"), "samples": samples, "tag": tag}
+    for tag in out:
+        summ = [s for s in g.of("summary") if s.get("tag") == tag]
+        if not summ:
+            raise vf.Infra("replay harness produced no summary for %s:\n%s" % (tag, g.out[-3000:]))
+        s = summ[0]
+        if s["paths"] != out[tag]["paths"]:
+            raise vf.Infra("replay harness ran %d of %d paths (%s)" % (s["paths"], out[tag]["paths"], tag))
+        out[tag].update(steps=s["steps"], forks=s["forks"], mismatches=[m for m in g.of("mismatch") if m.get("tag") == tag])
+    return out
 
 
 # a difference between the IDEAL relation and the real code: which deviation is it?  (the replay of the AS_BUILT
